@@ -30,6 +30,27 @@ CLAIMED = {
         "technique": "Coq-verified table validator + N(T) soundness theorem + LR driver simulation proof; differential correspondence",
         "design": "DESIGN.md section 7, C04",
     },
+    "C09": {
+        "text": "Unbounded Coq theorems over a Gallina model of the action machinery (on-the-fly shift/reduce calls inside the LR "
+                "driver, Parser.call_actions, built-in actions, prod_symbol_id enumeration, assignment dicts, action resolution): "
+                "for every grammar, table, scanner, action environment, pure user actions, input and fuel the on-the-fly run is the "
+                "homomorphic image of the build_tree run (same acceptance/error/position, result = evaluation of the returned tree) "
+                "and that evaluation equals call_actions on the tree (same value or both raise); a user action is called with the "
+                "sub-results of exactly its production's right-hand side in order, the entry of a per-alternative list at the "
+                "production's position among the rule's alternatives, and every named match bound to the sub-result where it is "
+                "written; no actions => nested list; + * ? and separator helper rules => flat list / [] / None for every derivation "
+                "of the helper rule. Tied to /repo by differential runs of the extracted model: three routes on generated grammars "
+                "x action tables x inputs, resolved actions, prod_symbol_id, assignment dicts, every built-in callable on random "
+                "arguments; plus property oracles on the impl alone (route equality, recorded arguments vs the written grammar, "
+                "sugar results vs element results).",
+        "note": "Partial: the GLR route has a theorem only for decoding forest[0] of a single-tree forest that contains the LR "
+                "derivation (no GLR driver model); GLR results are compared differentially. Exceptions of actions are modelled as "
+                "poisoned results (exact for accepted sentences). Refuted as written: collect drops None elements "
+                "(KF-C09-collect-drops-none); GLR/LR give different spans to empty reductions before layout "
+                "(KF-C09-glr-empty-span). Trusted: Coq kernel, extraction, OCaml driver, dumps and generators.",
+        "technique": "Coq simulation proof (value stack = image of tree stack) + evaluator equivalence + differential correspondence",
+        "design": "DESIGN.md section 7, C09",
+    },
 }
 
 NOT_YET = "machinery for this property is not built yet in this commit (planned, see DESIGN.md section 12)"
